@@ -126,6 +126,12 @@ impl FileNumber {
     pub fn for_test(file_number: u64) -> Self {
         FileNumber::new(file_number)
     }
+
+    #[cfg(quickwit_oss_mrecordlog_verif)]
+    #[allow(dead_code)]
+    pub(crate) fn for_verif(file_number: u64) -> Self {
+        FileNumber::new(file_number)
+    }
 }
 
 impl std::borrow::Borrow<u64> for FileNumber {
